@@ -331,6 +331,31 @@ func (e *Engine) leafRefs(s *Shape) []bool {
 	return out
 }
 
+// leafSliceRefs reports, for each leaf of a shape, whether it is the lifted element array of a slice
+// whose elements are references (pointer or map): such a leaf has sort (Array Int Int) and every element
+// that exists at function entry denotes an object that exists at function entry.
+func (e *Engine) leafSliceRefs(s *Shape) []bool {
+	var out []bool
+	switch s.Kind {
+	case KStruct:
+		for _, f := range s.Fields {
+			out = append(out, e.leafSliceRefs(f.Sh)...)
+		}
+	case KSlice:
+		out = []bool{false}
+		out = append(out, e.leafRefs(s.Elem())...)
+		if s.Elem().Kind == KIface {
+			// interface elements: payloads are not necessarily references
+			for i := range out {
+				out[i] = false
+			}
+		}
+	default:
+		out = make([]bool, e.nLeaves(s))
+	}
+	return out
+}
+
 // ---------------------------------------------------------------- values
 
 type Value struct {
